@@ -126,6 +126,54 @@ def shared_writes(fnode):
     return out
 
 
+def _is_queue(e, queue):
+    attr, subs = self_attr(e)
+    return attr == queue and not subs
+
+
+def queue_iterations(fnode, queue="_msg_queue"):
+    """Places where the shared queue is ITERATED (a for loop, a comprehension, or a consumer of iterables such as sum / list /
+    sorted / any / max): a deque that another receive thread appends to meanwhile raises RuntimeError ("deque mutated during
+    iteration") and the iterating thread dies with every later message of its peer. len() and append are atomic; iteration is not."""
+    out = []
+    for n in ast.walk(fnode):
+        if isinstance(n, (ast.For, ast.AsyncFor)) and _is_queue(n.iter, queue):
+            out.append(n)
+        elif isinstance(n, ast.comprehension) and _is_queue(n.iter, queue):
+            out.append(n.iter)
+        elif isinstance(n, ast.Call) and isinstance(n.func, ast.Name) and n.func.id in ("sum", "list", "tuple", "sorted", "any", "all", "max", "min", "set", "enumerate", "reversed", "iter", "map", "filter", "zip") and \
+                any(_is_queue(a, queue) for a in n.args):
+            out.append(n)
+        elif isinstance(n, ast.Compare) and any(isinstance(o, (ast.In, ast.NotIn)) for o in n.ops) and any(_is_queue(c, queue) for c in n.comparators):
+            out.append(n)  # `x in deque` walks it as well
+    return out
+
+
+def unbalanced_acquires(fnode):
+    """lock.acquire() statements whose release is not guaranteed on every way out: accepted forms are `with lock:` (no explicit
+    acquire at all) and `lock.acquire()` immediately followed by `try: ... finally: lock.release()`. Anything else leaves the lock
+    held when the code in between raises -- every other receive thread then blocks in its next acquire."""
+    out = []
+
+    def scan(stmts):
+        for i, st in enumerate(stmts):
+            if isinstance(st, ast.Expr) and isinstance(st.value, ast.Call) and isinstance(st.value.func, ast.Attribute) and st.value.func.attr == "acquire":
+                lock = ast.unparse(st.value.func.value)
+                nxt = stmts[i + 1] if i + 1 < len(stmts) else None
+                ok = isinstance(nxt, ast.Try) and any(isinstance(f, ast.Expr) and isinstance(f.value, ast.Call) and isinstance(f.value.func, ast.Attribute) and
+                                                      f.value.func.attr == "release" and ast.unparse(f.value.func.value) == lock for f in nxt.finalbody)
+                if not ok:
+                    out.append((st, lock))
+            for fld in ("body", "orelse", "finalbody"):
+                sub = getattr(st, fld, None)
+                if isinstance(sub, list) and sub and isinstance(sub[0], ast.stmt):
+                    scan(sub)
+            for h in getattr(st, "handlers", []) or []:
+                scan(h.body)
+    scan(fnode.body)
+    return out
+
+
 def own_atom_violations(model, reach, queue="_msg_queue", peer_reach=None):
     """OWN + ATOM over the thread-reachable functions."""
     viol = []
@@ -133,6 +181,10 @@ def own_atom_violations(model, reach, queue="_msg_queue", peer_reach=None):
     for kind, name in sorted(reach):
         fnode = model.node_of(kind, name)
         params = [a.arg for a in fnode.args.args]
+        for node in queue_iterations(fnode, queue):
+            viol.append((name, node, "ATOM", "thread-reachable code iterates the shared message queue (`%s`): an append by another receive thread during the walk raises RuntimeError and kills this thread" % ast.unparse(node)[:60]))
+        for node, lock in unbalanced_acquires(fnode):
+            viol.append((name, node, "ATOM", "`%s.acquire()` is not paired with a release on every way out (no `with`, no try / finally): an exception in between leaves the lock held and blocks every other receive thread" % lock))
         for wkind, attr, subs, node in shared_writes(fnode):
             n_sites += 1
             if attr == queue:
